@@ -212,3 +212,27 @@ Proof.
 Qed.
 
 End EndToEnd.
+
+(** the same guarantees stated on the result of the whole solve: r_probs is that vector *)
+Theorem solve_probs_numeric (g : gameQ) :
+  wf_game qops g ->
+  (forall i, nth i (g_players g) PR = PR ->
+     nonneg_w (nth i (g_trans g) []) /\ sumw (nth i (g_trans g) []) <= 1) ->
+  forall fuel prune r,
+  solve_fuel qops fuel g prune = Ok r ->
+  let p := fun j => nth j (r_probs r) 0 in
+  exists srf, reverse_dfs (tlg g) (g_finals g) = Ok srf /\
+    (forall j, 0 <= p j <= 1) /\
+    (forall j, gx0 g j <= p j) /\
+    (forall j, p j <= gV g (r_it_reach r * length srf) j) /\
+    (forall s, In s srf -> 0 <= gPhi g p s - p s <= q_thr).
+Proof.
+  intros Hwf Hnum fuel prune r H p. apply solve_inv in H.
+  destruct H as (sl1 & sl3 & sl4 & it2 & Ha & _ & _ & Hr).
+  destruct (reach_numeric g Hwf Hnum fuel prune sl1 (r_reachs r) (r_it_reach r) Ha) as (srf & E & B1 & B2 & B3 & B4).
+  assert (Hp : forall j, p j = reach_vec qops sl1 j).
+  { intros j. unfold p. rewrite Hr. cbn [r_probs]. unfold reach_vec. change (0:Q) with (reach (dnode qops)). apply map_nth. }
+  exists srf. split; [exact E|]. split; [intros j; rewrite Hp; apply B1|]. split; [intros j; rewrite Hp; apply B2|].
+  split; [intros j; rewrite Hp; apply B3|].
+  intros s Hs. unfold gPhi. rewrite (Phi_ext (gkd g) (gtr g) p (reach_vec qops sl1) s Hp), Hp. apply B4. exact Hs.
+Qed.
